@@ -21,9 +21,9 @@ MANIFEST = dict(
          "that contains it and the rules it refers to, in the same order, among arbitrary other rules before, between and after them (verdict_company_independent, by the frame lemma eval_rename; "
          "verdict_alone for rules naming no other rule). Thm/C05EndToEnd.lean (company_independent_end_to_end) removes the contract hypothesis: for the automata BUILT by the model of ahocorasick.c from two different rule sets containing the same text string (any indices, windows, other strings), both report exactly its documented occurrences on every buffer. The tie to the code is a differential run: each rule alone vs. in a colliding company, permutations, prefixes "
          "(monotonicity) and source splits/includes; the automaton contract itself is checked per case through hooks in C01, and Thm/AcBuild.lean proves it for the modelled "
-         "construction of the SHARED automaton for every list of non-empty atoms and every buffer (build_sound / build_candsOK: whatever else is inserted, each string's candidates are exactly "
-         "the occurrences of its atoms); the construction model must build tables EQUAL to the real ones for every company and every generated rule set (text, hex, regex; growth). "
-         "Rule-set shapes are sampled; zero-length atoms (strings without a usable atom) are covered by the table comparison only.",
+         "construction of the SHARED automaton for every list of atoms (zero-length ones included) and every buffer (build_sound / build_scan_exact / build_candsOK: whatever else is inserted, each string's candidates are exactly "
+         "the occurrences of its atoms); the construction model must build tables EQUAL to the real ones, and the real candidate sequence must EQUAL the model's scan and the specification sequence "
+         "(order included), for every company and every generated rule set (text, hex, regex; growth; zero-length atoms). Rule-set shapes and buffers are sampled.",
     design_ref="DESIGN.md §5 C05",
     note=core.TB + "Text strings only in the theorem (hex/regex strings covered by the differential). Global rules are not added to the namespace of the rule under test (excluded by the property).")
 
@@ -270,7 +270,7 @@ def run(tier, replay=None):
     chk.cov["ac_certificate"] = {"company_tables_checked": len(acl), "cert_ok": ac_ok}
     if lres.get("driver_ok"):
         # construction tie (Thm/AcBuild): the Lean model of ahocorasick.c must build EXACTLY the shared tables from the logged atoms
-        found = acbuild.report(chk, acbuild.compare(outs), {x.split(" ", 1)[0]: x for x in lines}, "company") or found
+        found = acbuild.report(chk, acbuild.compare(outs, {x.split(" ", 1)[0]: x.rsplit("buf=", 1)[1] for x in lines if "buf=" in x}), {x.split(" ", 1)[0]: x for x in lines}, "company") or found
         chk.cov["ac_certificate"]["construction_model_equal"] = dict(acbuild.compare.last)
         if not replay:
             found = acbuild.run_extra(chk, b, core.rng("C05-acbuild"), "mixed", tier) or found
